@@ -105,7 +105,7 @@ def _gen_mm(n):
 # fixed lengths 0..12 (every tail shape with 0, 1, 2 and 3 blocks), any seed below 2**38 -- BloomFilter.add
 # passes i * 0xFBA4C795 + tweak unreduced, i < 50 -- in 64-bit bit-vector mode
 for _n in range(0, 13):
-    contract("buidl.helper.murmur3#len%d" % _n, props=P, bv=64,
+    contract("buidl.helper.murmur3#len%d" % _n, props=P, bv=32, bv_bytes_direct=True,
              params={"data": "bytes:%d" % _n, "seed": ("int", 0, 2**38 - 1)},
              ensures=["returns()", "result == spec.filters.murmur3_32(data, seed)", "result <= 0xFFFFFFFF"],
              gen=_gen_mm(_n))
@@ -118,6 +118,17 @@ def _gen_mm_any(rng, tier):
     while True:
         yield {"data": rand_bytes(rng, rng.randrange(0, 700)), "seed": rng.getrandbits(rng.choice([32, 33, 38, 64]))}
 
+
+# every length below 2**24 and every seed below 2**64 (BloomFilter.add passes i * 0xFBA4C795 + tweak unreduced): 32-bit
+# bit-vector mode with exactness tracking (the accumulator h1 is only ever known modulo 2**32 inside the loop), the block
+# loop cut by an invariant over the recursive spec function murmur3_blocks
+contract("buidl.helper.murmur3#anylen", props=P, bv=32, bv_bytes_direct=True,
+         params={"data": ("bytes", 0, 2**24 - 1), "seed": ("int", 0, 2**64 - 1)},
+         ensures=["returns()", "result == spec.filters.murmur3_32_r(data, seed)", "result <= 0xFFFFFFFF"],
+         invariants={1: {"inv": ["(h1 & 0xFFFFFFFF) == spec.filters.murmur3_blocks(data, seed & 0xFFFFFFFF, _k)"],
+                         "types": {"h1": ("int", 0, 2**4096 - 1), "k1": ("int", 0, 2**4096 - 1)}}},
+         tiers=("runtime-only",),   # symbolic run: establish/preserve discharge, the post-loop obligations exceed the solver budget
+         gen=_gen_mm_any)
 
 contract("buidl.helper.murmur3", props=P, params={"data": "bytes", "seed": ("int", 0, 2**64 - 1)},
          ensures=["returns()", "result == spec.filters.murmur3_32(data, seed)", "0 <= result < 2**32"],
